@@ -499,8 +499,14 @@ def main(prop, tier, seed):
                     diffs.append({'pair': '%s::{closure#%d}' % (name, i), 'diff': list(difflib.unified_diff(rx, ry, lineterm='', n=2))[:30]})
         # semantic comparison of the tag dispatch
         tag = z3.BitVec('tag', 8)
-        fs, ls = dispatch_formula(trees['parse_header_attributes'][0], z3, tag)
-        fa, la = dispatch_formula(trees['parse_header_attributes'][1], z3, tag)
+        try:
+            fs, ls = dispatch_formula(trees['parse_header_attributes'][0], z3, tag)
+            fa, la = dispatch_formula(trees['parse_header_attributes'][1], z3, tag)
+        except Inconclusive as e:
+            if not diffs:
+                raise
+            diffs.append({'pair': 'tag dispatch (not analysable: %s)' % e, 'diff': []})
+            raise StopIteration
         inv = {v: k for k, v in ls.items()}
         inva = {v: k for k, v in la.items()}
         sol = z3.Solver()
@@ -535,6 +541,8 @@ def main(prop, tier, seed):
         if str(r2) == 'sat':
             m = sol2.model()
             diffs.append({'pair': 'tag partition', 'diff': ['tag byte 0x%02x is not dispatched as RFC 8010 partitions the tag space' % m[tag].as_long()]})
+    except StopIteration:
+        pass
     except Inconclusive as e:
         incon = str(e)
     viol = None
